@@ -307,7 +307,8 @@ def simpleClock (p : SCParams) : Clock SC :=
       else .error "ValueError"
     time := fun c => (c.t : Rat) }
 
-def scInv (p : SCParams) (c : SC) : Prop := c.recomp ≤ p.recompMax ∧ (c.t < p.final → 1 ≤ c.dt ∧ c.t + c.dt ≤ p.final)
+def scInv (p : SCParams) (c : SC) : Prop :=
+  c.recomp ≤ p.recompMax ∧ c.t ≤ p.final ∧ (c.t < p.final → 1 ≤ c.dt ∧ c.t + c.dt ≤ p.final)
 
 def scMeasure (p : SCParams) (c : SC) : Nat := (p.final - c.t) * (p.recompMax + 1) + (p.recompMax - c.recomp)
 
